@@ -14,6 +14,13 @@ import Proofs.XdrSize
 import Proofs.EndToEndText
 import Proofs.XdrStream
 import Proofs.XdrSrc
+import PydapModel.Handler
+import Proofs.Handler
+import Proofs.HandlerWF
+import Proofs.HandlerWire
+import Proofs.HandlerTyped
+import Proofs.HandlerDdsSplit
+import Proofs.HandlerAscii
 namespace Pydap.C01
 open Pydap Pydap.Xdr
 
@@ -106,6 +113,47 @@ theorem C01_e2e_response_text (d : Dds.Dataset) (s0 : Dds.Text) (t : Tmpl) (data
     (ht : E2E.tmplOfDataset (Dds.normDs d) = some t) (hd : WF t data = true) :
     E2E.clientDecode (body (E2E.encodeAscii (s0 ++ ['\n'])) t data) = .ok (Dds.normDs d, data, []) :=
   E2E.clientDecode_body d s0 t data hwf hp hascii hsep ht hd
+/-! ### the served response, from the request to the client's values (round 7)
+
+`C01_end_to_end` takes the declaration, the data and the DDS bytes as given and ASSUMES that the separator does not occur
+in the DDS.  Below the three are what the handler model (`Handler.respond`, PydapModel/Handler.lean; tied by C06/C15's
+correspondence) produces for a request, and the separator hypothesis is proved (`Handler.ddsText_sepFree`). -/
+
+/-- **what the server holds is what the client reads, for every request**: on a well-formed, typed source dataset and
+    for EVERY query that yields a constrained dataset (the whole dataset — empty query — or any projection /
+    hyperslab / sequence selection), with the constrained declaration free of empty containers (`Shaped`) and its
+    names ASCII without newline (`Plain`): the DDS response is `s0 ‖ \n`; the client's split of the data response
+    returns `s0`, and its decoder, driven by the constrained declaration, returns exactly the constrained data
+    (`Handler.dataOf cds`: every variable's values, in declaration order) and consumes the body to the last byte -/
+theorem C01_served_response_read_back (fmt : Int → Handler.Str) (ds cds : Handler.Dataset) (q : Handler.Str)
+    (hw : ds.WF) (ht : ds.TY) (h : Handler.constrained ds q = .ok cds) (hs : cds.Shaped) (hp : cds.Plain) :
+    ∃ s0 body, Handler.respond fmt ds cs!"dds" q = .ok .dds (.complete (s0 ++ ['\n'])) ∧
+      Handler.respond fmt ds cs!"dods" q = .ok .dods (.complete body) ∧
+      clientRead (Handler.tmplOf cds) (Handler.strBytes body)
+        = some (Handler.strBytes s0, .ok (Handler.dataOf cds, [])) := by
+  have hcw := Handler.constrained_wf ds cds q hw h
+  have hx := Handler.xdrWF_of_typed cds hcw (Handler.constrained_ty ds cds q ht h) hs
+  obtain ⟨s0, e, hsf⟩ := Handler.ddsText_sepFree cds hp
+  have e1 : Handler.rsplitDot (cs!"/d." ++ cs!"dds") = some (cs!"/d", cs!"dds") := by decide
+  have e2 : Handler.rsplitDot (cs!"/d." ++ cs!"dods") = some (cs!"/d", cs!"dods") := by decide
+  have n1 : (cs!"dds" = cs!"das") = False := by decide
+  have n2 : (cs!"dods" = cs!"das") = False := by decide
+  have k1 : Handler.lookupKind cs!"dds" = some .dds := by decide
+  have k2 : Handler.lookupKind cs!"dods" = some .dods := by decide
+  refine ⟨s0, Handler.ddsText cds ++ cs!"Data:\n" ++ Handler.bytesStr (Handler.payload cds), ?_, ?_, ?_⟩
+  · rw [← e]
+    unfold Handler.respond Handler.handle
+    rw [Handler.guarded_eq ds _ q _ _ e1]; simp only [n1, if_false, h, k1]; rfl
+  · unfold Handler.respond Handler.handle
+    rw [Handler.guarded_eq ds _ q _ _ e2]; simp only [n2, if_false, h, k2]; rfl
+  · have hb : Handler.strBytes (Handler.ddsText cds ++ cs!"Data:\n" ++ Handler.bytesStr (Handler.payload cds))
+        = Handler.strBytes s0 ++ splitPattern ++ encImpl (Handler.tmplOf cds) (Handler.dataOf cds) := by
+      rw [e, Handler.strBytes_append, Handler.strBytes_append, Handler.strBytes_append, Handler.strBytes_bytesStr]
+      simp [splitPattern, dataMarker, Handler.strBytes, Handler.payload]
+    unfold clientRead splitBody
+    rw [hb, E2E.split_sepFree _ _ hsf]
+    simp [C01_roundtrip _ _ hx]
+
 /-! ### the streaming transports: `StreamReader` (`open_dods_url`, `SequenceProxy.__iter__`) -/
 
 /-- **round trip through a `StreamReader`, for every delivery**: whatever chunks the server's bytes arrive in
@@ -236,6 +284,20 @@ example : WF exT exD = true := by decide
 example : decImpl exT (encImpl exT exD) = .ok (exD, []) := C01_roundtrip exT exD (by decide)
 example : ∀ i, i < [32, 125].length →
     ¬ splitPattern.isPrefixOf (([32, 125] ++ splitPattern ++ encImpl exT exD).drop i) = true := by decide
+
+/-- non-vacuity of `C01_served_response_read_back`: a Byte array (values ≥ 128), an Int16 grid, a sequence with a
+    String column; the whole dataset (empty query) -/
+def exSrv : Handler.Dataset := ⟨cs!"d", [
+  .base { name := cs!"flags", ty := cs!"Byte", shape := [3], dims := [], data := [10, 200, 255] },
+  .grid cs!"g" { name := cs!"v", ty := cs!"Int16", shape := [2], dims := [cs!"x"], data := [.int (-7), 8] }
+    [{ name := cs!"x", ty := cs!"Int32", shape := [2], dims := [cs!"x"], data := [0, 10] }],
+  .seq cs!"s" [(cs!"i", cs!"Int32"), (cs!"n", cs!"String")] [[1, .str cs!"ab"], [3, .str []]]]⟩
+example : Handler.constrained exSrv [] = .ok exSrv := by decide +kernel
+example : exSrv.WF := by decide +kernel
+example : Handler.respond Pydap.intText exSrv cs!"dds" [] = .ok .dds (.complete
+    cs!"Dataset {\n    Byte flags[flags = 3];\n    Grid {\n        Array:\n            Int16 v[x = 2];\n        Maps:\n            Int32 x[x = 2];\n    } g;\n    Sequence {\n        Int32 i;\n        String n;\n    } s;\n} d;\n") := by
+  decide +kernel
+example : WF (Handler.tmplOf exSrv) (Handler.dataOf exSrv) = true := by decide +kernel
 
 example : E2E.sepFree (E2E.encodeAscii "Dataset {\n    Int16 a[m0 = 2];\n} ds;".toList) = true := by decide
 example : E2E.sepFree (E2E.encodeAscii "x\nData:".toList) = false := by decide
